@@ -52,6 +52,7 @@ F = [
 for f in F:
     f['status'] = 'open'
 FIXED = [
+ 'fixed: property=C02 87ebcb3 hang when a required node raises an exception whose instances are falsy (witnesses/D27.json); also C05',
  'fixed: property=C09 59cf84d hang when a switch case that is also consumed directly comes after the switch node in the launch order (witnesses/D26.json); also C02',
  'fixed: property=C09 dee09f8 hang when the selected switch case was already computed for another consumer (witnesses/D4.json); also C02',
  'fixed: property=C02 60096c3 hang: failure in a recurrent re-iteration consumed by a switch case inside a one-of candidate (witnesses/D25.json)',
